@@ -16,6 +16,10 @@ MUTS = {
  'close-does-not-throw': ('src/posix.cc', '  if (result != 0)\n    FMT_THROW(SystemError(errno, "cannot close file"));\n}\n\n// A macro used', '  (void)result;\n}\n\n// A macro used'),
  'suffix-ladder-narrowed': ('include/mp/backend-std.h', '    } catch (const std::exception& exc) {\n      AddWarning("SUFFIX_OUT"', '    } catch (const mp::Error& exc) {\n      AddWarning("SUFFIX_OUT"'),
  'suffix-call-outside-try': ('include/mp/backend-std.h', '      ReportStandardSuffixes();\n      ReportCustomSuffixes();\n    } catch', '      ReportStandardSuffixes();\n    } catch'),
+ 'parse-no-wantsol': ('src/solver.cc', '    solver_.set_ampl_flag();\n    solver_.set_wantsol(1);\n', '    solver_.set_ampl_flag();\n'),
+ 'parse-ampl-literal': ('src/solver.cc', 'std::strcmp(*argv, "-AMPL") == 0', 'std::strcmp(*argv, "-ampl") == 0'),
+ 'parse-dashdash-stops': ("src/solver.cc", "if (opt && opt != '-') return 0;", "if (opt) return 0;"),
+ 'parse-no-usage-return': ('src/solver.cc', '    ShowUsage();\n    return 0;\n', '    ShowUsage();\n    return "";\n'),
  'new-throw-in-run': ('include/mp/backend-app.h', '    GetBackend().RunFromNLFile(\n', '    if (!nl_filename_.size()) throw 1;\n    GetBackend().RunFromNLFile(\n'),
 }
 def main():
